@@ -150,6 +150,7 @@ type State struct {
 	dead    bool
 	lockCount int
 	writes    map[string]map[string]bool
+	hypSeen   map[string]bool
 }
 
 func (s *State) clone() *State {
@@ -183,6 +184,10 @@ func (s *State) clone() *State {
 		}
 		n.writes[k] = m
 	}
+	n.hypSeen = make(map[string]bool, len(s.hypSeen))
+	for k, v := range s.hypSeen {
+		n.hypSeen[k] = v
+	}
 	n.callN = make(map[string]int, len(s.callN))
 	for k, v := range s.callN {
 		n.callN[k] = v
@@ -205,6 +210,16 @@ func (s *State) assume(h string) {
 		}
 		return
 	}
+	if h == "true" || h == "" {
+		return
+	}
+	if s.hypSeen == nil {
+		s.hypSeen = map[string]bool{}
+	}
+	if s.hypSeen[h] {
+		return
+	}
+	s.hypSeen[h] = true
 	s.hyps = s.hyps.add(h)
 }
 
